@@ -475,13 +475,18 @@ def run(run_, ctx):
         want1 = "#1 = %s(%d, arg1); #2 = %s(#1, %s) => %s" % (upd.def_ if upd else "?", BASIS, sdm.def_, subj, le8("#2"))
         run_.check(len(got) == 1 and _same_call_text(got[0], want1), "F", "hash_ty_path" + ("_owned" if owned else ""),
                    "key = FNV-1a(path bytes from the offset basis, then the schema stream), little-endian", f.where(), expected=[want1], found=got)
-    # Key constructors
+    # Key constructors: the same digest, wrapped (whatever private helpers sit in between are analysed in place)
     for f in [x for x in sc.fns if x.name in ("for_path", "for_owned_schema_path") and "::key::" in x.canon and x.impl_self]:
-        got = [o["text"] for o in summ2.summarize(F, f, inline=lambda f_, ev: False)["outcomes"]]
-        tgt = [p for p in paths if (p.argc == 2) == (f.argc == 2)]
-        args = "arg1, arg2" if f.argc == 2 else "arg1"
-        okp = len(tgt) == 1 and got == ["#1 = %s(%s) => Key(#1)" % (tgt[0].def_, args)]
-        run_.check(okp, "P", "Key::" + f.name, "Key constructor does not wrap exactly the hasher's digest", f.where(), found=got)
+        owned = f.argc == 2
+        sdm = sdm_o if owned else sdm_c
+        if not (upd and upds and sdm):
+            continue
+        subj = "arg2" if owned else "constref('postcard_schema::Schema::SCHEMA', T(), 'SCHEMA')"
+        inl2 = lambda f_, ev: f_.crate == "postcard_schema" and (f_.canon not in keep or f_.canon == upds.canon)
+        got = [o["text"] for o in summ2.summarize(F, f, inline=inl2)["outcomes"]]
+        want1 = "#1 = %s(%d, arg1); #2 = %s(#1, %s) => Key(%s)" % (upd.def_, BASIS, sdm.def_, subj, le8("#2"))
+        run_.check(len(got) == 1 and _same_call_text(got[0], want1), "P", "Key::" + f.name, "Key constructor does not wrap exactly the hasher's digest", f.where(),
+                   expected=[want1], found=got)
     run_.floor("F", 6)
     run_.floor("P", 2)
     run_.explanation = (
